@@ -438,8 +438,9 @@ def check_one(a):
                 fire('roundtrip:exc', f'from_rdkit(to_rdkit(m)) raises {type(e).__name__} for m built from the spelling {sp}', 'a molecule', str(e)[:120])
 
     # --- from_rdkit_molecule on RDKit's own molecules ----------------------------------------------------------------------------
-    def from_side(rdm, label):
-        """all contracts of the RDKit -> library direction for one RDKit molecule"""
+    def from_side(rdm, label, gap_ref=None):
+        """all contracts of the RDKit -> library direction for one RDKit molecule; gap_ref: the same compound without added hydrogen atoms
+        for the domain filter (the bounded symmetry oracle is not reliable with every hydrogen explicit: H permutations exhaust its limit)"""
         out_model = outside_model(Chem, rdm)
         info['noncarbon_rdkit_centres'] += len(out_model)
         if any(k == 'multiradical' for k, _ in out_model):
@@ -473,14 +474,14 @@ def check_one(a):
             fire('from:invalid-result', f'from_rdkit_molecule({label}) returns a molecule the library cannot normalise (kekule/thiele)', str(f2), err)
             return f
         if str(f1) != str(f2):
-            fire('from:canonical', f'str(from_rdkit({label})) differs from str(smiles(MolToSmiles(rd)))', str(f2), str(f1), gap_mol=f2, cage=True)
+            fire('from:canonical', f'str(from_rdkit({label})) differs from str(smiles(MolToSmiles(rd)))', str(f2), str(f1), gap_mol=f2 if gap_ref is None else gap_ref, cage=True)
         # renumbered RDKit molecule
         perm = list(range(rdm.GetNumAtoms()))
         r.shuffle(perm)
         try:
             f3, err = safe_norm(D, from_rdkit_molecule(Chem.RenumberAtoms(rdm, perm)))
             if f3 is None or str(f3) != str(f1):
-                fire('from:renumbering', f'str(from_rdkit({label})) changes under RenumberAtoms', str(f1), str(f3) if f3 is not None else err, gap_mol=f2, cage=True)
+                fire('from:renumbering', f'str(from_rdkit({label})) changes under RenumberAtoms', str(f1), str(f3) if f3 is not None else err, gap_mol=f2 if gap_ref is None else gap_ref, cage=True)
         except Exception as e:
             fire('from:exc-renumbered', f'from_rdkit_molecule raises {type(e).__name__} on a renumbered RDKit molecule', 'a molecule', str(e)[:120])
         # to o from = id on RDKit's side (carbon centres only: other centres are outside the library's model)
@@ -491,7 +492,7 @@ def check_one(a):
                 Chem.SanitizeMol(san)       # the converter sanitises (aromaticity perception): compare with the sanitised original
                 rs = Chem.MolToSmiles(san)
                 if t != rs:
-                    fire('roundtrip:from-to', f'to_rdkit(from_rdkit({label})) differs from rd in RDKit canonical SMILES', rs, t, gap_mol=f2)
+                    fire('roundtrip:from-to', f'to_rdkit(from_rdkit({label})) differs from rd in RDKit canonical SMILES', rs, t, gap_mol=f2 if gap_ref is None else gap_ref)
             except Exception as e:
                 fire('roundtrip:exc', f'to_rdkit(from_rdkit({label})) raises {type(e).__name__}', 'a molecule', str(e)[:120])
         return f
@@ -541,7 +542,7 @@ def check_one(a):
                     info['rd_variant_skipped'] += 1
                     continue
                 info['rd_variants'] += 1
-                from_side(rv, label)
+                from_side(rv, label, gap_ref=m)
             # STEREOCIS / STEREOTRANS labels: configuration relative to the stereo atoms, RDKit writes the same canonical SMILES
             rv = cistrans_labelled(Chem, base)
             if rv is not None and rd_canon(Chem, rv) == base_can:
@@ -565,7 +566,7 @@ def check_one(a):
                     cids = []
                 if len(cids) == 2:
                     info['conformer_sets'] += 1
-                    f = from_side(h, 'AddHs(rd) with two embedded 3D conformers')
+                    f = from_side(h, 'AddHs(rd) with two embedded 3D conformers', gap_ref=m)
                     if f is not None:
                         pos = [c.GetPositions() for c in h.GetConformers()]
                         got = getattr(f, '_conformers', None) or []
